@@ -74,7 +74,27 @@ func genStream(r *gen.Rand, cfg gen.ProgCfg, files map[string]string, maxMerges 
 			}
 		}
 		id := fmt.Sprintf("L0|doc%d", i)
-		merges = append(merges, wire.Op{Op: "MergeDocument", ID: id, Data: &wire.Tree{V: doc}})
+		op := wire.Op{Op: "MergeDocument", ID: id, Data: &wire.Tree{V: doc}}
+		if m, ok := doc.(map[string]any); ok && r.Chance(0.12) {
+			// a caller that builds the document in Go and uses one sub-tree
+			// object in two places
+			var cands []string
+			for _, k := range gen.SortedKeys(m) {
+				switch m[k].(type) {
+				case map[string]any, []any:
+					if !strings.HasPrefix(k, "$") {
+						cands = append(cands, k)
+					}
+				}
+			}
+			if len(cands) > 0 {
+				k := gen.PickAny(r, cands)
+				m["shared_twin"] = wire.Clone(m[k])
+				op.Share = append(op.Share, [2][]string{{k}, {"shared_twin"}})
+				planted = append(planted, "shared-object")
+			}
+		}
+		merges = append(merges, op)
 		prev = append(prev, id)
 		prevTrees = append(prevTrees, doc)
 	}
